@@ -287,7 +287,7 @@ PROPS["C06"] = dict(
 # ---------------------------------------------------------------- C01
 PROPS["C01"] = dict(
     level="exploration",
-    technique="exhaustive enumeration of the d=1 mutation neighbourhood of valid tokens (and d=2 for three algorithms) for every key/algorithm pair on the real checker, judged by an independent integer-level signature reference",
+    technique="exhaustive enumeration of the d=1 mutation neighbourhood of valid tokens (and d=2 for every pair in the thorough tier) for every key/algorithm pair on the real checker, judged by an independent integer-level signature reference",
     level_text=("for every (key, algorithm) pair of the support matrix (oct/HS256-512, RSA and RSA-PSS keys with RS*/PS*, P-256/384/521 "
                 "and secp256k1 with ES*, Ed25519, Ed448) and both providers, starting from a reference-signed and a library-signed "
                 "token, every single-bit flip of the signature, every value of its first/last byte and character, every truncation "
@@ -300,7 +300,7 @@ PROPS["C01"] = dict(
     rule=("evaluations = verifications judged; cases = (pair, base token source, mutation class chunk); non-trivial = cases that ran a "
           "mutation class against a base token that itself verifies; accepted mutants are each confirmed by the reference (counter)"),
     runs=_both_providers("sigmut"),
-    bound=dict(quick="d=1 for 12 pairs; header/payload substitutions at a stride-8 subset of positions", thorough="d=1 for 20 pairs at every position; d=2 for HS256, ES256, Ed25519"),
+    bound=dict(quick="d=1 for 12 pairs; header/payload substitutions at a stride-8 subset of positions", thorough="d=1 for 23 pairs at every position; d=2 (signature truncate-then-extend/substitute at every cut; header character pairs at every two positions over a 16-character subset) for every pair"),
     assumptions=["trusts libcrypto primitives under ref_crypto (keys parsed from the harness's own PEM, never from a libjwt import)"],
     budget_s=dict(quick=900, thorough=3000),
 )
@@ -396,7 +396,7 @@ PROPS["C20"] = dict(
     level="exploration",
     technique="exhaustive process-level enumeration of token-list compositions, option spellings and the key pool through the built command-line tools",
     level_text=("the four tools are built from /repo/tools and driven as child processes: jwt-verify with every good/bad composition of "
-                "1-6 (thorough 1-8) tokens and with 255/256/257/512 (thorough also 254, 258, 511, 513, 1024) tokens in six shapes, "
+                "1-6 (thorough 1-10) tokens and with 255/256/257/512 (thorough also 254, 258, 511, 513, 1024) tokens in six shapes, "
                 "as arguments and on standard input; a jwt-generate -> jwt-verify round trip for seven key files (with and without "
                 "alg attribute, oct/EC/RSA/OKP, PS256) under every combination of short and long spellings (and =value forms) of "
                 "every documented option; every documented claim type through -c/--claim/--claim= and -j over a value ladder (18 "
@@ -408,7 +408,7 @@ PROPS["C20"] = dict(
     rule=("evaluations = tool invocations; cases = one composition family / one spelling combination / one key; non-trivial = cases "
           "whose round trip completed and was compared"),
     runs=lambda tier: [dict(harness="cli", script="harness/cli.py", tools=True)],
-    bound=dict(quick="lists 1-6 and 255/256/257/512; all spellings; all pool keys; oct 32-71 and boundary sizes", thorough="lists 1-8 and 254-258, 511-513, 1024; oct 32-512"),
+    bound=dict(quick="lists 1-6 and 255/256/257/512; all spellings; all pool keys; oct 32-71 and boundary sizes", thorough="lists 1-10 and 254-258, 511-513, 1024; oct 32-512"),
     assumptions=["stdin tokens longer than BUFSIZ and ARG_MAX-sized lists are not enumerated (DESIGN 5)"],
     tools=True,
     budget_s=dict(quick=900, thorough=3000),
@@ -437,3 +437,12 @@ _app("C16", "; the kids k2/kb/kz are 257 characters long and share their first 2
 _app("C18", "; the sequential result of each body is the reference whatever it is (bodies that do not behave as designed are counted in the evidence, not treated as a harness failure)")
 _app("C20", "; lists of tokens failing for different reasons (bad signature, not a token, expired, not yet valid, both) in runs of 1-9, 15-17, 31-33, 63-65, 127-129, 255-257 and 512, "
      "and 1-4 tokens of one cause mixed with 0-33 (thorough 0-64) of another")
+
+# ---------------------------------------------------------------- additions of round 13
+_app("C03", "; under OpenSSL four private keys with which signing itself fails inside the provider (RSA modulus made even, RSA d = 0, EC d one octet too long, EC d = 0): a refusal, never header.payload.")
+_app("C06", "; a fifteenth configuration: a key-less checker some of whose configuration calls were refused (expected iss set, then iss, sub and aud \"set\" to text that is not UTF-8)")
+_app("C07", "; an eighth entry point: jwks_load into a set that refused a text that is not JSON just before (the stale set error is not this document's)")
+_app("C11", "; a violation that needs what an earlier case left behind in the library (per-thread state) is confirmed by replaying the worker's earlier cases in one process")
+_app("C15", "; STR values that are not UTF-8 (refused with INVALID, no change) are in the alphabet")
+_app("C19", "; the refused-call operation also replaces exp, nbf, iss, sub and aud by text that is not UTF-8 (refused for its value)")
+_app("C20", "; jwk2key given a file it cannot use (truncated JSON, empty, a number, unknown kty, missing) before or after a seven-key set: every key of the set is still written back")
